@@ -220,6 +220,10 @@ def case_fn(case):
         return e
 
     def bound(ph):
+        # gamma == 0: the splitting error is a commutator with the nonlinear operator and vanishes identically, every
+        # split-step scheme is then exact up to FFT rounding (<= 1e5 steps * eps * log N << FLOOR)
+        if g == 0:
+            return FLOOR + extra
         return K_BOUND * ph * max(phi_nl, 0.1) + FLOOR + extra
 
     ratios = [0.0]
@@ -238,16 +242,19 @@ def case_fn(case):
                 es.append(max(relerr(orow, cf) for orow, irow in zip(rows_of(o), rows_of(sig.signal)) if np.any(irow)))
             e3 = min(es)
             obs.append(('spm', round(e3, 12)))
-            if e3 > phi + 1e-9:
+            # alpha == 0: |A| is constant along z, so ANY split-step scheme accumulates exactly gamma*|in|^2*L
+            # (rounding only); with loss a stepping scheme may be first order in phi_max
+            tol3 = 1e-9 if alpha == 0 else phi + 1e-9
+            if e3 > tol3:
                 viol.append((f'spm-closed-form:{"loss" if alpha > 0 else "lossless"}:{"kerr" if g > 0 else "gamma0"}',
                              f'beta2=beta3=0: relative distance to in*exp(-a L/2)*exp(j g |in|^2 L_eff) is {e3:.3e} '
-                             f'> phi_max+1e-9 = {phi + 1e-9:.3e} (gamma*P*L_eff = {phi_nl:.3f} rad, alpha*L = {alpha * L:.1f} dB)'))
+                             f'> {"1e-9" if alpha == 0 else "phi_max+1e-9"} = {tol3:.3e} (gamma*P*L_eff = {phi_nl:.3f} rad, alpha*L = {alpha * L:.1f} dB)'))
         else:
             e_main = err_vs_ref(o, sig)
             ratios.append(e_main / bound(phi))
             if e_main > bound(phi):
                 viol.append((f'nlse-bound:{layout}' + (':gamma0' if g == 0 else ''),
-                             f'relative L2 error vs reference NLSE solution {e_main:.3e} > K*phi_max*max(Phi_NL,0.1)+floor = '
+                             f'relative L2 error vs reference NLSE solution {e_main:.3e} > ' + ('floor = ' if g == 0 else 'K*phi_max*max(Phi_NL,0.1)+floor = ') +
                              f'{bound(phi):.3e} (phi_max={phi}, Phi_NL={phi_nl:.3f} rad, split steps={steps})'))
 
     # ---- oracle (5): 1-pol run == x row of the 2-pol run with empty y
